@@ -21,6 +21,11 @@
   decision, only how many entries a hash is delivered in; inputs here are far
   below the 16 MiB threshold, so one value = one entry.
 
+  (Session 4: Model/RdbFrameX.lean extends this grammar with everything that is
+  `unsup` here — LZF strings, streams, modules, module-aux, text floats — and with
+  the chunk continuation as state of the item reader; the definitions below are
+  kept, the theorems without suffix speak about them.)
+
   Core Lean only.
 -/
 import GunYu.Basic.Bytes
